@@ -8,6 +8,17 @@ from engine.rulekit import scans
 from rules import anchors as A
 
 
+def _origin_key(o):
+    """where a value comes from, comparable between two traces of one body (None: nothing to compare by)"""
+    if o.kind == "call":
+        return ("call", o.bb)
+    if o.kind == "aggregate":
+        return ("aggregate", o.bb, id(o.rv))
+    if o.kind == "const":
+        return None
+    return getattr(o, "local", None)
+
+
 def run(ck, F):
     ck.explanation = (
         "(R1) on the MIR of the abbreviation function every return is dominated by the false arm of a membership test "
@@ -22,6 +33,8 @@ def run(ck, F):
     ck.rule("R3", "single allocation: Namespace{..} is built only after `find by URI` in the registry failed; rust_mod_name derives from the same abbreviation")
     ck.rule("R5", "a prefix written as a literal in an emitted namespace map cannot coincide with an allocated abbreviation")
     ck.rule("R4", "merge reconciliation: merging registries matches incoming entries by URI and re-checks abbreviations")
+    ck.rule("R6", "one module per namespace: every schema element is read under its own targetNamespace — the switch selects the namespace "
+                  "it is given on every path, and each schema element handed to the schema reader was switched to first")
     makers = A.abbreviation_makers(F)
     if len(makers) != 1:
         ck.undecided("R1", "anchor", "-", f"expected one function producing Namespace.abbreviation at the construction sites, found {makers}")
@@ -51,10 +64,14 @@ def run(ck, F):
         val_roots = set()
         if rv["k"] == "use":
             for o in M.trace(B, rv["op"], M.IDENTITY_CALLS):
-                val_roots.add(getattr(o, "local", None) if o.kind != "call" else ("call", o.bb))
+                val_roots.add(_origin_key(o))
             src_local = rv["op"]["p"]["l"] if rv["op"].get("k") in ("copy", "move") else None
         else:
             src_local = None
+            if rv["k"] == "call" and (M.Body.callee_decl(rv["term"]) or "").endswith(M.IDENTITY_CALLS) and rv["term"].get("args"):
+                # `return candidate.into_owned()` / `.clone()` / `.to_string()`: the value is the receiver's
+                for o in M.trace(B, rv["term"]["args"][0], M.IDENTITY_CALLS):
+                    val_roots.add(_origin_key(o))
         ok = False
         why = "no membership test dominates the return"
         for (abb, at) in anys:
@@ -84,8 +101,8 @@ def run(ck, F):
             cap_locals = set()
             for o in cap:
                 for x in M.trace(B, o, M.IDENTITY_CALLS):
-                    cap_locals.add(getattr(x, "local", None) if x.kind != "call" else ("call", x.bb))
-            if not (cap_locals & val_roots):
+                    cap_locals.add(_origin_key(x))
+            if not ((cap_locals & val_roots) - {None}):
                 why = "the value tested is not the value returned"
                 continue
             sw = B.term(at["target"]) if at.get("target") is not None else {}
@@ -104,8 +121,8 @@ def run(ck, F):
                     continue
                 needle = set()
                 for x in M.trace(B, ct["args"][1], M.IDENTITY_CALLS):
-                    needle.add(getattr(x, "local", None) if x.kind != "call" else ("call", x.bb))
-                if not (needle & val_roots):
+                    needle.add(_origin_key(x))
+                if not ((needle & val_roots) - {None}):
                     why = "the value tested is not the value returned"
                     continue
                 free_arm = _arm_when_false(B, cbb, ct)
@@ -174,6 +191,7 @@ def run(ck, F):
             ck.violation("R3", "lookup-before-construct", site, f"{short}: a Namespace is built without first looking its URI up in the registry: one URI can get two prefixes", fn=fn)
     # ---- R5: fixed prefixes next to allocated ones
     rule_fixed_prefixes(ck, F, MAKE)
+    rule_schema_namespace(ck, F)
     # ---- R4
     MERGE = A.merge_fn(F)
     b = F.lib.body(MERGE) if MERGE else None
@@ -213,6 +231,8 @@ def run(ck, F):
             def absent_arm(tbb, tt):
                 """the block reached when the membership test says "not in the registry yet" """
                 dd = M.Body.callee_decl(tt) or ""
+                if dd.endswith("Iterator::any") and _closure_compares_identity(F, MB, tt["args"][1]):
+                    return None      # `Rc::ptr_eq`: the entries of two documents are never the same allocation, whatever they hold
                 if dd.endswith(("::contains", "Iterator::any")):
                     return _arm_when_false(MB, tbb, tt)
                 if dd.endswith("Iterator::all") and _closure_compares_unequal(F, MB, tt["args"][1]):
@@ -234,6 +254,121 @@ def run(ck, F):
         ck.violation("R4", "merge-by-uri", b["span"],
                      "RustDocument::extend merges the namespace registries by whole-value equality: the same URI "
                      "abbreviated differently in two files yields two prefixes/modules, and two URIs abbreviated alike in two files share one")
+
+
+def rule_schema_namespace(ck, F, rule="R6"):
+    """All components of a target namespace land in that namespace's module only if every `schema` element is read under its own
+    `targetNamespace`: (a) the function that makes a namespace the current one does so on every path — also for a namespace that
+    is in the registry already (the second schema of a namespace, a schema met again after another one); (b) wherever a schema
+    element is handed to the schema reader, that element's `targetNamespace` was made current first."""
+    from rules import c02 as C02
+    # (a) the switcher: fn(&mut RustDocument, &str) that assigns `current_target_namespace`
+    switchers = []
+    for f in A._fn_items(F):
+        ins = [A._norm_ty(x) for x in f["inputs"]]
+        if ins == ["&mutmodel::doc::RustDocument", "&str"] and A._norm_ty(f["output"]) == "()":
+            b = F.lib.body(f["path"])
+            if b is None or not b.get("mir"):
+                continue
+            B = I.inlined_body(F.lib, f["path"])
+            assigns = [i for i in sorted(B.reach) for st in B.blocks[i]["stmts"]
+                       if st["k"] == "assign" and st["p"]["l"] == 1 and [p_.get("f") for p_ in (st["p"].get("proj") or []) if isinstance(p_, dict) and "f" in p_] == ["current_target_namespace"]]
+            if assigns:
+                switchers.append((f["path"], b, B, assigns))
+    if len(switchers) != 1:
+        ck.undecided(rule, "switcher", "-", f"the function that makes a namespace the current target namespace could not be attributed uniquely ({[x[0] for x in switchers]})")
+    else:
+        path, b, B, assigns = switchers[0]
+        short = path.rsplit("::", 1)[-1]
+        rets = [i for i in sorted(B.reach) if B.term(i).get("k") == "return"]
+        skipping = [r for r in rets if r in B.reachable_from(0, avoid=assigns)]
+        if skipping:
+            ck.violation(rule, "switch-always-selects", b["span"],
+                         f"{short} can return without making the namespace it was given the current one (a namespace that is in the list already is left "
+                         f"unselected): the components of a schema whose namespace was met before — a second schema element of that namespace, a "
+                         f"schema read after another one — are stamped with whatever namespace was current, and land in that module", fn=short)
+        else:
+            ck.ok(rule, "switch-always-selects", b["span"], f"{short} makes the namespace it is given the current one on every path", fn=short)
+    # (b) at the calls of the schema reader on a child element
+    if len(switchers) == 1:
+        sw_path = switchers[0][0]
+        W = og.EnvWalker(F)
+        readers, sites = C02.schema_reader_calls(F)
+        n = 0
+        per_fn = {}
+        for caller in sorted({s_[0] for s_ in sites} | readers):
+            cb_ = F.lib.body(caller)
+            if cb_ is None or cb_.get("hir") is None:
+                continue
+            events = []
+            per_fn[caller] = events
+
+            def cb(e, env, ctx):
+                if e.get("k") not in ("Call", "MethodCall"):
+                    return
+                cp = Hh.callee_path(e)
+                args = ([e["recv"]] if e.get("k") == "MethodCall" else []) + list(e["args"])
+                if cp == sw_path and len(args) == 2:
+                    events.append(("switch", W.NF.nf(args[1], env), e))
+                elif cp in readers:
+                    for a in args:
+                        a0 = Hh.strip(a)
+                        if "roxmltree::Node<" in (a0.get("ty") or "") + (a0.get("adj_ty") or ""):
+                            events.append(("read", W.NF.nf(a, env), e))
+                            break
+            try:
+                W.walk_fn(caller, cb)
+            except og.Unrecognised:
+                continue
+
+        def switched_node(nf):
+            cur = nf
+            for _ in range(6):
+                if isinstance(cur, tuple) and cur[0] == "payload":
+                    cur = cur[2]
+                elif isinstance(cur, tuple) and cur[0] == "call" and cur[2] and str(cur[1]).rsplit("::", 1)[-1] in ("as_str", "as_ref", "ok_or", "ok_or_else", "unwrap_or_default"):
+                    cur = cur[2][0]
+                else:
+                    break
+            if isinstance(cur, tuple) and cur[0] == "call" and str(cur[1]).rsplit("::", 1)[-1] == "attribute" and len(cur[2]) == 2 and cur[2][1] == ("lit", "targetNamespace"):
+                return cur[2][0]
+            return None
+        # a reader that switches to the targetNamespace of the node it was given, before it reads it, takes care of itself
+        self_switching = set()
+        for fn_, events in per_fn.items():
+            if fn_ not in readers:
+                continue
+            sw = []
+            for kind, nf, e in events:
+                if kind == "switch" and switched_node(nf) is not None:
+                    sw.append(switched_node(nf))
+                if kind == "read" and isinstance(nf, tuple) and nf[0] == "param" and nf in sw:
+                    self_switching.add(fn_)
+        for caller, events in sorted(per_fn.items()):
+            short = caller.rsplit("::", 1)[-1]
+            switched = []
+            for kind, nf, e in events:
+                if kind == "switch":
+                    if switched_node(nf) is not None:
+                        switched.append(switched_node(nf))
+                    continue
+                if Hh.callee_path(e) in self_switching:
+                    n += 1
+                    ck.ok(rule, f"schema-under-own-namespace:{short}", Hh.sp(e), f"{short}: the reader called makes the element's targetNamespace current itself", fn=short)
+                    continue
+                callee = Hh.callee_path(e)
+                hands_own = isinstance(nf, tuple) and nf[0] == "param"
+                if hands_own and caller in readers and not switched:
+                    # the function reads the node it was given and leaves the namespace to its caller: judged there
+                    continue
+                n += 1
+                if nf in switched:
+                    ck.ok(rule, f"schema-under-own-namespace:{short}", Hh.sp(e), f"{short}: the element's targetNamespace is made current before the element is read", fn=short)
+                else:
+                    ck.violation(rule, f"schema-under-own-namespace:{short}", Hh.sp(e),
+                                 f"{short} hands {og.nf_str(nf)[:60]} to the schema reader without making that element's `targetNamespace` the current one: "
+                                 f"its components are stamped with the namespace of whatever was read before (the WSDL's own, the previous schema's)", fn=short)
+        ck.floor(rule, "schema reader calls judged", n, 1)
 
 
 def rule_fixed_prefixes(ck, F, maker):
@@ -319,6 +454,19 @@ def rule_fixed_prefixes(ck, F, maker):
                          f"and a counter): a target namespace abbreviated `{lit.lower()}` gives one map two bindings of that prefix")
         else:
             ck.ok("R5", f"fixed-prefix:{lit}", site, f"`{lit}` cannot be an allocated abbreviation (those are at most {n_take} alphanumeric characters and a counter)")
+
+
+def _closure_compares_identity(F, B, operand):
+    """the predicate compares addresses (`Rc::ptr_eq`, `ptr::eq`, `as_ptr`), not values"""
+    for o in M.trace(B, operand, ()):
+        if o.kind == "aggregate" and o.rv.get("closure"):
+            cb = F.lib.body(o.rv["closure"])
+            if cb is not None and cb.get("mir"):
+                for _, t in M.Body(cb).calls():
+                    d = M.Body.callee_decl(t) or ""
+                    if d.endswith(("::ptr_eq", "ptr::eq", "::as_ptr", "ptr::addr_eq")):
+                        return True
+    return False
 
 
 def _closure_compares_unequal(F, B, operand):
